@@ -7,9 +7,9 @@
    [trace_at b h] is the trace of ANY interleaving h of events (threads included,
    completion and notification being separate events); [trace1_at] is
    single-threaded use. *)
-From Coq Require Import List NArith Bool Arith Lia.
+From Coq Require Import List NArith ZArith Bool Arith Lia.
 Import ListNotations.
-From DV Require Import PendingCall.Pending Spec.PendingSpec Proofs.PendingSerial Proofs.PendingLemmas Proofs.PendingRel Proofs.PendingCancel Proofs.PendingFault Proofs.PendingLive Proofs.PendingBlock Proofs.PendingNoFault Proofs.PendingRefute Proofs.PendingTie.
+From DV Require Import PendingCall.Pending PendingCall.BlockTime Spec.PendingSpec Proofs.PendingSerial Proofs.PendingLemmas Proofs.PendingRel Proofs.PendingCancel Proofs.PendingFault Proofs.PendingLive Proofs.PendingBlock Proofs.PendingNoFault Proofs.PendingTime Proofs.PendingRefute Proofs.PendingTie.
 Local Open Scope N_scope.
 
 (* the reply slot of every call is assigned at most once and its notify function runs at most once, in every history *)
@@ -118,6 +118,61 @@ Theorem C17_block_completes_once : forall b h i k,
 Proof. exact block_completes_once. Qed.
 Print Assumptions C17_block_completes_once.
 
+(* ---- the blocking wait with the clock explicit (PendingCall/BlockTime.v) ---- *)
+(* elapsed_milliseconds as the C code computes it is the true number of whole milliseconds, or one more
+   (integer division truncates towards zero when the microsecond field went down) *)
+Theorem C17_elapsed_bounds : forall s n, ((us_of n - us_of s) / 1000 <= elapsed_ms s n <= (us_of n - us_of s) / 1000 + 1)%Z.
+Proof. exact elapsed_bounds. Qed.
+Print Assumptions C17_elapsed_bounds.
+(* the wait stops as soon as a reading shows the timeout expired ... *)
+Theorem C17_give_up_complete : forall s n ms, expired s n ms -> give_up s n ms = true.
+Proof. exact give_up_complete. Qed.
+Print Assumptions C17_give_up_complete.
+(* ... "never before": full statement Spec.PendingSpec.C17_timeout_not_early_full_statement, refuted twice below (F17.4);
+   what holds: if the seconds did not go down, all but the last millisecond of the timeout has passed, and with no
+   borrow from the seconds the decision is exact *)
+Theorem C17_give_up_sound_partial : forall s n ms,
+  (tv_sec s <= tv_sec n)%Z -> give_up s n ms = true -> (us_of n - us_of s >= (ms - 1) * 1000)%Z.
+Proof. exact give_up_sound_partial. Qed.
+Print Assumptions C17_give_up_sound_partial.
+Theorem C17_give_up_exact : forall s n ms,
+  (tv_sec s <= tv_sec n)%Z -> (tv_usec s <= tv_usec n)%Z -> (give_up s n ms = true <-> expired s n ms).
+Proof. exact give_up_exact. Qed.
+Print Assumptions C17_give_up_exact.
+Theorem C17_timeout_not_early_refuted_rounding : ~ C17_timeout_not_early_full_statement.
+Proof. exact timeout_not_early_refuted_rounding. Qed.
+Print Assumptions C17_timeout_not_early_refuted_rounding.
+Theorem C17_timeout_not_early_refuted_backwards : ~ C17_timeout_not_early_full_statement.
+Proof. exact timeout_not_early_refuted_backwards. Qed.
+Print Assumptions C17_timeout_not_early_refuted_backwards.
+
+(* a pass of the recheck loop whose reading says "not expired" never makes up a timeout error: what it completes the
+   call with was in the incoming queue, or is the Disconnected error of a dead transport (any reachable state) *)
+Theorem C17_no_early_timeout : forall b h i st' o j m,
+  let st := fst (run (init_at b) h) in
+  step st (EBlockStep i false) = (st', o) -> In (OComplete j m) o ->
+  j = i /\ (In m (queue (u_status st)) \/ (connected (u_status st) = false /\ m_kind m = KDisconnected)).
+Proof. exact no_early_timeout. Qed.
+Print Assumptions C17_no_early_timeout.
+
+(* the timed wait is an interleaving of model events, so every [run] theorem covers it; e.g. at most once: *)
+Theorem C17_timed_block_is_run : forall st i arg clocks arrivals, is_run st (block_timed st i arg clocks arrivals).
+Proof. exact block_timed_run. Qed.
+Print Assumptions C17_timed_block_is_run.
+Theorem C17_timed_block_at_most_once : forall b h i arg clocks arrivals, valid_base b ->
+  at_most_once (trace_at b h ++ t_obs (block_timed (fst (run (init_at b) h)) i arg clocks arrivals)).
+Proof. exact timed_block_at_most_once. Qed.
+Print Assumptions C17_timed_block_at_most_once.
+
+(* the timeout object: registered only while the call is in the table, not completed, not cancelled and owns its
+   timeout_link; gone once the call is completed -- in every reachable state *)
+Theorem C17_timeout_lifecycle : forall b h, valid_base b ->
+  Forall (fun c => (c_tadded c = true -> c_intable c = true /\ c_completed c = false /\ c_cancelled c = false /\ c_link c = true) /\
+                   (c_completed c = true -> c_intable c = false /\ c_tadded c = false))
+         (calls (fst (run (init_at b) h))).
+Proof. exact timeout_lifecycle. Qed.
+Print Assumptions C17_timeout_lifecycle.
+
 (* ---- non-vacuity: the hypotheses above are satisfiable, the conclusions are about real completions ---- *)
 Definition ex_h : list event := [ESend true true; EPlain; ESend false true; EPeerReply PReturn 1 7; EPeerReply PError 0 8; ERead].
 Example ex_nowrap : nowrap1 ex_h. Proof. vm_compute. reflexivity. Qed.
@@ -160,3 +215,13 @@ Proof. vm_compute. reflexivity. Qed.
 Example ex_wrap_serials : trace1_at 4294967294 [ESend true true; EPlain; ESend true true; EPeerReply PError 1 9; ERead; EDispatch] =
   [OSent (Some 4294967294); OPlain 4294967295; OSent (Some 1); OComplete 1 (mkMsg (KPeer PError) 1 9); ODispatch false; ONotify 1].
 Proof. vm_compute. reflexivity. Qed.
+
+Example ex_elapsed_one_more : elapsed_ms (mkTv 0 999999) (mkTv 1 500) = 1%Z /\ ((us_of (mkTv 1 500) - us_of (mkTv 0 999999)) / 1000 = 0)%Z.
+Proof. vm_compute. split; reflexivity. Qed.
+Example ex_timed_block : let r := block_timed (fst (run init [ESend true true])) 0 100 [mkTv 5 0; mkTv 5 30000; mkTv 5 60000]
+                                   [[PM PSignal (inr 0) 1]; []; [PM PReturn (inl 0%nat) 2]] in
+  t_polls r = [100; 70; 40]%Z /\ t_out r = Returned /\ t_obs r = [OComplete 0 (mkMsg (KPeer PReturn) 1 2); ONotify 0].
+Proof. vm_compute. repeat split; reflexivity. Qed.
+Example ex_timed_block_gives_up : let r := block_timed (fst (run init [ESend true true])) 0 5 [mkTv 10 0; mkTv 10 4999; mkTv 10 5000] [] in
+  t_polls r = [5; 1]%Z /\ t_obs r = [OComplete 0 (mkMsg KNoReply 1 0); ONotify 0].
+Proof. vm_compute. repeat split; reflexivity. Qed.
